@@ -63,6 +63,19 @@ CLAIMS = {
         technique="symbolic enumeration of all CFG paths of the codec loop bodies with linear path constraints, bit-level "
                   "provenance vectors composed across encoder and decoder, and table agreement on evaluated initialisers",
         design="5 C07"),
+    "C15": dict(
+        text="Clause-level structural decision over the server's sender: on every path of send_chunk_or_dataless the payload "
+             "length copied and sent is <= users[u].fragsize (or 0) and equals the length recorded for the ack; this rests on "
+             "a send-state invariant (offset, sentlen >= 0, offset+sentlen <= len) proven inductively over every writer of "
+             "those fields, with C's signed/unsigned comparison semantics modelled, so the clamps cannot be defeated by a "
+             "negative length; fragsize is only ever assigned a constant default that fits a 512-byte reply or a requested "
+             "value dominated by a test >= 2, and the slot hand-out always sets the default; the fragment counter is 0 when a "
+             "packet starts, advances by exactly 1 per accepted ack and only under the seqno/fragment match, and is never "
+             "touched after a new packet was started; the last-fragment bit is len == offset + n for the n sent. Not decided: "
+             "answers replayed from the answer cache after the size was lowered, and numbering beyond 16 fragments.",
+        technique="inductive linear field invariants over enumerated CFG paths (sound unsigned-comparison model), must-fact "
+                  "dataflow with a MIN-lowering rule, who-may-write enumeration, bit provenance of the header byte",
+        design="5 C15"),
 }
 
 NA = {
